@@ -1,7 +1,11 @@
 // C04 extraction table: every arithmetic operator in every spelling, equality,
 // approximate equality, accessors, getValue/setValue, converting constructors
 // and foreign-type interop for Vec2/3/4, Color3/4, Shear6, Quat, Matrix22/33/44.
-// TV runs at all seven element types for the operator entries.
+// TV runs at all seven element types for every entry.
+#include <sstream>
+#include <iomanip>
+#include <climits>
+#include <cfloat>
 namespace symns
 {
 template <class T> struct OtherT { typedef double type; };
@@ -13,10 +17,382 @@ template <class T> struct FXYZ { T x, y, z; };
 template <class T> struct FXYZW { T x, y, z, w; };
 template <class T, int N> struct FSub { T d[N]; const T& operator[] (int i) const { return d[i]; } T& operator[] (int i) { return d[i]; } };
 template <class T, int N> struct FSub2 { T d[N][N]; const T* operator[] (int i) const { return d[i]; } T* operator[] (int i) { return d[i]; } };
+
+// counters reported next to the TV summary (hit counts of the special generators below); written by sym_c04.cpp
+inline std::map<std::string, long>& c04stats () { static std::map<std::string, long> m; return m; }
+
+//---------------------------------------------------------------------------------------------------
+// (1) equalWithAbsError / equalWithRelError at all seven element types.
+// C++ evaluates `((x1 > x2) ? x1 - x2 : x2 - x1) <= e` and `... <= e * abs (x1)` in the PROMOTED type:
+// int for short / unsigned char, float for half (half arithmetic goes through operator float).  The tree is
+// therefore evaluated at that type (inputs converted exactly) and the boolean compared with the real
+// instantiation at T.  Inputs: twins (b = a, b = a except one slot, b within / just beyond e of a), full-range
+// operands for short / unsigned char (where `x - v.x` stored back to T would wrap), NaN/inf for floating types.
+template <class T> struct PromT { typedef T type; };
+template <> struct PromT<short> { typedef int type; };
+template <> struct PromT<unsigned char> { typedef int type; };
+template <> struct PromT<half> { typedef float type; };
+
+inline std::map<std::string, std::set<size_t>>& eqerrLeaves () { static std::map<std::string, std::set<size_t>> m; return m; }
+inline std::map<std::string, size_t>& eqerrLeafCount () { static std::map<std::string, size_t> m; return m; }
+template <class T> TVFn makeTVEqErr (void (*body) (Ctx<T>&), const char* ty)
+{
+    return [body, ty] (const FnRecord& f, unsigned long seed, int n, bool, std::string& detail, TVStats& st) -> bool {
+        typedef typename PromT<T>::type P;
+        std::mt19937_64 g (seed);
+        size_t nin = 0;
+        for (auto& p : f.params) nin += p.vars.size ();
+        size_t N = (nin - 1) / 2; // a (N slots), b (N slots), e
+        const bool isInt = std::numeric_limits<T>::is_integer, small = sizeof (T) <= 2 && isInt;
+        std::string key = std::string ("eqerr.") + ty;
+        for (int k = 0; k < 2 * n; ++k)
+        {
+            auto in = TVGen<T>::values (g, nin, (small && k % 2) ? 7 : k, true, false);
+            T&   e  = in[2 * N];
+            if (isInt) { long ev = (long) (g () % (small ? 300 : 12)); if (!std::numeric_limits<T>::is_signed) ev %= 256; e = (T) ev; }
+            else if (double (e) < 0 && k % 8 != 7) e = T (-e);
+            size_t slot = (size_t) (k / 6) % N; // cycles over the slots: every leaf `false at slot i` is reached
+            switch (k % 6)
+            {
+                case 1: for (size_t i = 0; i < N; ++i) in[N + i] = in[i]; break;                        // equal
+                case 2: for (size_t i = 0; i < N; ++i) in[N + i] = in[i];                                   // one slot differs, far
+                        in[N + slot] = isInt ? T (in[slot] + T (small ? 77 : 40)) : T (float (double (in[slot]) * 3 + 1000)); break;
+                case 3: for (size_t i = 0; i < N; ++i) in[N + i] = in[i];                                   // one slot differs by exactly e / e + 1 ulp-ish
+                        if (isInt) in[N + slot] = T (in[slot] + e + T (g () & 1));
+                        else in[N + slot] = T (float (double (in[slot]) + double (e) * ((g () & 1) ? 1.0 : 1.5))); break;
+                case 4: for (size_t i = 0; i < N; ++i)                                                       // every slot within e
+                            in[N + i] = isInt ? T (in[i] + T (g () % 2 ? e : T (0))) : T (float (double (in[i]) + double (e) * 0.5)); break;
+                default: break;
+            }
+            if (!isInt && k % 12 == 11)
+            {
+                // floating types: NaN / inf in one operand slot or in e
+                double sp = (g () & 1) ? std::numeric_limits<double>::infinity () : std::numeric_limits<double>::quiet_NaN ();
+                in[g () % nin] = fromDouble<T> ((g () & 1) ? sp : -sp);
+                ++c04stats ()[key + ".naninf"];
+            }
+            ++st.evals;
+            for (size_t q = 1; q < in.size (); ++q) if (!sameBits (in[q], in[0])) { ++st.nontrivial; break; }
+            Ctx<T> c;
+            c.inputs = &in;
+            body (c);
+            std::vector<P> inP;
+            for (auto& x : in) inP.push_back ((P) x);
+            Evaluator<P> ev; std::vector<P> vals; std::vector<long> ints; std::string exc;
+            bool ok = ev.run (f, inP, vals, ints, exc);
+            if (ok) { st.hit[&f].insert (ev.leafIndex); eqerrLeaves ()[f.name].insert (ev.leafIndex); eqerrLeafCount ()[f.name] = f.paths.size (); }
+            if (small) for (size_t i = 0; i < N; ++i) { long d = (long) in[i] - (long) in[N + i]; if (d != (long) (T) d) { ++c04stats ()[key + ".difference_wraps_in_T"]; break; } }
+            if (ok && c.cints.size () == 1) ++c04stats ()[key + (c.cints[0] ? ".true" : ".false")];
+            if (!ok || ints != c.cints)
+            {
+                std::ostringstream s;
+                s.precision (17);
+                s << "boolean differs: real=" << (c.cints.empty () ? -1 : c.cints[0]) << " tree(promoted)=" << (ints.empty () ? -1 : ints[0]) << " :: in=";
+                for (auto& x : in) s << (double) x << " ";
+                detail = s.str ();
+                return false;
+            }
+        }
+        return true;
+    };
+}
+#define EXTRACT_EQERR(module, ident, leanname, ...)                                                    \
+    struct X_##ident { template <class T> static void run (symns::Ctx<T>& c) __VA_ARGS__ };            \
+    static int reg_##ident = (symns::entries ().push_back (symns::Entry{module, leanname, symns::Opts (), &X_##ident::run<symns::Sym>, \
+        {{"double", symns::makeTVEqErr<double> (&X_##ident::run<double>, "double")}, {"float", symns::makeTVEqErr<float> (&X_##ident::run<float>, "float")},  \
+         {"half", symns::makeTVEqErr<half> (&X_##ident::run<half>, "half")}, {"int", symns::makeTVEqErr<int> (&X_##ident::run<int>, "int")},              \
+         {"short", symns::makeTVEqErr<short> (&X_##ident::run<short>, "short")}, {"int64", symns::makeTVEqErr<int64_t> (&X_##ident::run<int64_t>, "int64")}, \
+         {"uchar", symns::makeTVEqErr<unsigned char> (&X_##ident::run<unsigned char>, "uchar")}}, symns::makeRun (&X_##ident::run<double>)}), 0);
+
+//---------------------------------------------------------------------------------------------------
+// (1b) == and != : the generic inputs almost never agree in the first k slots, so most leaves of the N+1-leaf
+// trees would stay unreached.  Twins: b = a; b = a except ONE slot (cycling over the slots); for the floating types
+// also +0 against -0 (equal) and NaN against itself (not equal) in one slot.
+template <class T> TVFn makeTVTwin (void (*body) (Ctx<T>&), const char* ty)
+{
+    return [body, ty] (const FnRecord& f, unsigned long seed, int n, bool, std::string& detail, TVStats& st) -> bool {
+        std::mt19937_64 g (seed);
+        size_t nin = 0;
+        for (auto& p : f.params) nin += p.vars.size ();
+        size_t N = nin / 2;
+        const bool isInt = std::numeric_limits<T>::is_integer;
+        std::string key = std::string ("eq.") + ty;
+        for (int k = 0; k < 2 * n; ++k)
+        {
+            auto in = TVGen<T>::values (g, nin, k, true, false);
+            size_t slot = (size_t) (k / 4) % N;
+            if (k % 4 != 0) for (size_t i = 0; i < N; ++i) in[N + i] = in[i];
+            if (k % 4 == 2) { in[N + slot] = isInt ? T (in[slot] + T (1 + g () % 5)) : T (float (double (in[slot]) + 0.5 + double (g () % 4))); ++c04stats ()[key + ".one_slot_differs"]; }
+            if (k % 4 == 1) ++c04stats ()[key + ".equal"];
+            if (!isInt && k % 4 == 3)
+            {
+                if (k % 8 == 3) { in[slot] = fromDouble<T> (0.0); in[N + slot] = fromDouble<T> (-0.0); ++c04stats ()[key + ".plus_zero_vs_minus_zero"]; }
+                else { in[slot] = in[N + slot] = fromDouble<T> (std::numeric_limits<double>::quiet_NaN ()); ++c04stats ()[key + ".nan_vs_itself"]; }
+            }
+            ++st.evals;
+            for (size_t q = 1; q < in.size (); ++q) if (!sameBits (in[q], in[0])) { ++st.nontrivial; break; }
+            std::string d;
+            size_t leaf = (size_t) -1;
+            bool okOne = tvOne<T> (f, body, in, d, &leaf);
+            if (leaf != (size_t) -1) st.hit[&f].insert (leaf);
+            if (!okOne)
+            {
+                std::ostringstream s;
+                s.precision (17);
+                s << d << " :: in=";
+                for (auto& x : in) s << (double) x << " ";
+                detail = s.str ();
+                return false;
+            }
+        }
+        return true;
+    };
+}
+#define EXTRACT_TWIN(module, ident, leanname, ...)                                                     \
+    struct X_##ident { template <class T> static void run (symns::Ctx<T>& c) __VA_ARGS__ };            \
+    static int reg_##ident = (symns::entries ().push_back (symns::Entry{module, leanname, symns::Opts (), &X_##ident::run<symns::Sym>, \
+        {{"double", symns::makeTVTwin<double> (&X_##ident::run<double>, "double")}, {"float", symns::makeTVTwin<float> (&X_##ident::run<float>, "float")},  \
+         {"half", symns::makeTVTwin<half> (&X_##ident::run<half>, "half")}, {"int", symns::makeTVTwin<int> (&X_##ident::run<int>, "int")},              \
+         {"short", symns::makeTVTwin<short> (&X_##ident::run<short>, "short")}, {"int64", symns::makeTVTwin<int64_t> (&X_##ident::run<int64_t>, "int64")}, \
+         {"uchar", symns::makeTVTwin<unsigned char> (&X_##ident::run<unsigned char>, "uchar")}}, symns::makeRun (&X_##ident::run<double>)}), 0);
+
+//---------------------------------------------------------------------------------------------------
+// (2) division entries: the divisor is non-zero for the INTEGER element types only (division by zero is undefined
+// there); for double / float / half both operands also take +-0, +-inf, NaN, the smallest denormal and the largest
+// finite value, and the result is compared bitwise (NaNs by NaN-ness) like every other entry.
+template <class T> TVFn makeTVDivF (void (*body) (Ctx<T>&), const char* ty)
+{
+    return [body, ty] (const FnRecord& f, unsigned long seed, int n, bool, std::string& detail, TVStats& st) -> bool {
+        std::mt19937_64 g (seed ^ 0x9e3779b97f4a7c15ull);
+        size_t nin = 0;
+        for (auto& p : f.params) nin += p.vars.size ();
+        const double inf = std::numeric_limits<double>::infinity (), nan = std::numeric_limits<double>::quiet_NaN ();
+        const T sp[] = {fromDouble<T> (0.0), fromDouble<T> (-0.0), fromDouble<T> (inf), fromDouble<T> (-inf), fromDouble<T> (nan),
+                        std::numeric_limits<T>::denorm_min (), std::numeric_limits<T>::max (), T (-std::numeric_limits<T>::max ())};
+        std::string key = std::string ("div.") + ty;
+        for (int k = 0; k < n; ++k)
+        {
+            auto in = TVGen<T>::values (g, nin, k, false, false);
+            if (k % 2)
+            {
+                // 1, 2 or all slots special (the divisor of a / s is the LAST input, of a / b the second half)
+                size_t cnt = (k % 6 == 5) ? nin : 1 + g () % 2;
+                for (size_t j = 0; j < cnt; ++j) in[cnt == nin ? j : (j == 0 ? nin - 1 - g () % ((nin + 1) / 2) : g () % nin)] = sp[g () % 8];
+            }
+            bool z = false, i = false, q = false;
+            for (auto& x : in) { double d = (double) x; z |= d == 0; i |= std::isinf (d); q |= d != d; }
+            c04stats ()[key + ".zero"] += z; c04stats ()[key + ".inf"] += i; c04stats ()[key + ".nan"] += q;
+            ++st.evals;
+            for (size_t q2 = 1; q2 < in.size (); ++q2) if (!sameBits (in[q2], in[0])) { ++st.nontrivial; break; }
+            std::string d;
+            if (!tvOne<T> (f, body, in, d))
+            {
+                std::ostringstream s;
+                s.precision (17);
+                s << d << " :: in=";
+                for (auto& x : in) s << (double) x << " ";
+                detail = s.str ();
+                return false;
+            }
+        }
+        return true;
+    };
+}
+#define EXTRACT_DIV(module, ident, leanname, ...)                                                      \
+    struct X_##ident { template <class T> static void run (symns::Ctx<T>& c) __VA_ARGS__ };            \
+    static int reg_##ident = (symns::entries ().push_back (symns::Entry{module, leanname, symns::Opts ().nz (), &X_##ident::run<symns::Sym>, \
+        {{"double", symns::makeTVDivF<double> (&X_##ident::run<double>, "double")}, {"float", symns::makeTVDivF<float> (&X_##ident::run<float>, "float")},  \
+         {"half", symns::makeTVDivF<half> (&X_##ident::run<half>, "half")}, {"int", symns::makeTV<int> (&X_##ident::run<int>)},              \
+         {"short", symns::makeTV<short> (&X_##ident::run<short>)}, {"int64", symns::makeTV<int64_t> (&X_##ident::run<int64_t>)}, \
+         {"uchar", symns::makeTV<unsigned char> (&X_##ident::run<unsigned char>)}}, symns::makeRun (&X_##ident::run<double>)}), 0);
+
+//---------------------------------------------------------------------------------------------------
+// (3) conversions between element types with the cast VISIBLE.  `SymS` is the scalar of the OTHER element type:
+// its values are variables of type β, and converting one to `Sym` records a CAST node, emitted as an application
+// of the parameter `cast : β → α`.  (SymB above converts silently: it only forces the templates to be instantiated.)
+struct SymS
+{
+    const Node* n;
+    SymS () : n (pool ().mk (LIT, {}, "", 0.0)) {}
+    SymS (int v) : n (pool ().mk (LIT, {}, "", (double) v)) {}
+    static SymS var (const Node* p) { SymS s; s.n = p; return s; }
+    operator Sym () const { return Sym (pool ().mk (CAST, {n})); }
+};
+template <class X> inline X cvtD (double v) { if constexpr (std::is_same<X, half>::value) return half ((float) v); else return static_cast<X> (v); }
+// A = source element type (all `src` inputs), B = destination element type (all outputs, `dst` inputs)
+template <class A, class B> struct Ctx2
+{
+    const std::vector<double>* allIn = nullptr; size_t ap = 0; // replay: one list of numbers in parameter order
+    static constexpr bool symbolic = std::is_same<B, Sym>::value;
+    Ctx<Sym>*             sc = nullptr;
+    const std::vector<A>* srcIn = nullptr; size_t sp = 0;
+    const std::vector<B>* dstIn = nullptr; size_t dp = 0;
+    std::vector<B>        outs;
+    template <class G> G src (const std::string& name)
+    {
+        G               a{};
+        std::vector<A*> ptrs;
+        Agg<G>::flat (a, ptrs);
+        if constexpr (symbolic)
+        {
+            std::vector<std::string> lv;
+            Agg<G>::shape ()->leaves ("", lv);
+            Param p{name, Agg<G>::shape (), {}, true};
+            for (size_t i = 0; i < ptrs.size (); ++i)
+            {
+                Sym v    = Sym::var (name + "." + lv[i]);
+                *ptrs[i] = SymS::var (v.n);
+                p.vars.push_back (v.n);
+            }
+            if (sc->first) sc->rec->params.push_back (p);
+        }
+        else for (auto* p : ptrs) *p = allIn ? cvtD<A> ((*allIn)[ap++]) : (*srcIn)[sp++];
+        return a;
+    }
+    template <class G> G dst (const std::string& name)
+    {
+        if constexpr (symbolic) return sc->template in<G> (name);
+        else
+        {
+            G               a{};
+            std::vector<B*> ptrs;
+            Agg<G>::flat (a, ptrs);
+            for (auto* p : ptrs) *p = allIn ? cvtD<B> ((*allIn)[ap++]) : (*dstIn)[dp++];
+            return a;
+        }
+    }
+    template <class G> void out (const G& a0)
+    {
+        if constexpr (symbolic) sc->out (a0);
+        else
+        {
+            G               a = a0;
+            std::vector<B*> ptrs;
+            Agg<G>::flat (a, ptrs);
+            for (auto* p : ptrs) outs.push_back (*p);
+        }
+    }
+};
+// the scalar conversion the property speaks of, and inputs on which it is not the identity
+template <class A, class B> struct CastGen;
+template <> struct CastGen<double, float>
+{
+    static double v (std::mt19937_64& g, int k)
+    {
+        static const double sp[] = {1.0 + 5.9604644775390625e-8, 1.0 + 5.9604644775390625e-8 + 1e-15, 1.0 + 3 * 5.9604644775390625e-8, 0.1, -0.1, 1e-40, -1e-40,
+                                    1e-46, 7.006492321624085e-46, -0.0, 16777217.0, 3.4028234663852886e38, -3.4028234663852886e38, 1.0 / 3.0, 1e-300,
+                                    std::numeric_limits<double>::infinity (), -std::numeric_limits<double>::infinity (), std::numeric_limits<double>::quiet_NaN ()};
+        if (k % 3 == 0) return sp[g () % (sizeof (sp) / sizeof (double))];
+        return std::uniform_real_distribution<double> (-1000.0, 1000.0) (g) * ((k % 3 == 1) ? 1.0 : 1e-3);
+    }
+};
+template <> struct CastGen<float, half>
+{
+    static float v (std::mt19937_64& g, int k)
+    {
+        static const float sp[] = {65504.f, 65519.f, 65520.f, -65520.f, 1e-8f, 5.9604645e-8f, 2.9802322e-8f, 2.9802326e-8f, 0.1f, -0.1f, 1.0f + 4.8828125e-4f,
+                                   1.0f + 3 * 4.8828125e-4f, -0.0f, 1e10f, 6.1e-5f, 6.0975552e-5f, 1.0f / 3.0f,
+                                   std::numeric_limits<float>::infinity (), -std::numeric_limits<float>::infinity (), std::numeric_limits<float>::quiet_NaN ()};
+        if (k % 3 == 0) return sp[g () % (sizeof (sp) / sizeof (float))];
+        return std::uniform_real_distribution<float> (-1000.f, 1000.f) (g) * ((k % 3 == 1) ? 1.0f : 1e-4f);
+    }
+};
+template <> struct CastGen<double, int>
+{
+    // only values whose truncation is representable (anything else is undefined behaviour of the scalar cast itself)
+    static double v (std::mt19937_64& g, int k)
+    {
+        static const double sp[] = {0.5, -0.5, 0.999, -0.999, 1.5, -1.5, 2.5, -2.5, 2147483647.0, -2147483648.0, 2147483647.9, -2147483648.9, 1e9 + 0.7, -1e-300, -0.0, 1e-300};
+        if (k % 3 == 0) return sp[g () % (sizeof (sp) / sizeof (double))];
+        return std::uniform_real_distribution<double> (-1000.0, 1000.0) (g) * ((k % 3 == 1) ? 1.0 : 1e6);
+    }
+};
+template <> struct CastGen<int, unsigned char>
+{
+    static int v (std::mt19937_64& g, int k)
+    {
+        static const int sp[] = {-1, 255, 256, 257, -256, -255, INT_MAX, INT_MIN, 511, 128, -128, 65535, 65536, 0};
+        if (k % 3 == 0) return sp[g () % (sizeof (sp) / sizeof (int))];
+        return (k % 3 == 1) ? (int) (g () % 1024) - 512 : (int) (uint32_t) g ();
+    }
+};
+template <class A, class B> inline bool castTree (const Node* n, const std::map<const Node*, A>& senv, const std::map<const Node*, B>& denv, B& r)
+{
+    // the trees of the conversion entries are slot casts: CAST (source variable), a destination variable, or a literal
+    if (n->op == CAST && n->k[0]->op == VAR) { auto it = senv.find (n->k[0]); if (it == senv.end ()) return false; r = static_cast<B> (it->second); return true; }
+    if (n->op == VAR) { auto it = denv.find (n); if (it == denv.end ()) return false; r = it->second; return true; }
+    if (n->op == LIT) { r = static_cast<B> ((float) n->lit); return true; }
+    return false;
+}
+template <class A, class B> TVFn makeTVCast (void (*body) (Ctx2<A, B>&), const char* pair)
+{
+    return [body, pair] (const FnRecord& f, unsigned long seed, int n, bool, std::string& detail, TVStats& st) -> bool {
+        std::mt19937_64 g (seed);
+        std::string key = std::string ("cast.") + pair;
+        if (f.paths.size () != 1) { detail = "conversion entry with more than one path"; return false; }
+        for (int k = 0; k < n; ++k)
+        {
+            std::vector<A> sv; std::vector<B> dv;
+            std::map<const Node*, A> senv; std::map<const Node*, B> denv;
+            for (auto& p : f.params)
+                for (auto* v : p.vars)
+                {
+                    if (p.src) { sv.push_back (CastGen<A, B>::v (g, k)); senv[v] = sv.back (); }
+                    else { dv.push_back (TVGen<B>::values (g, 1, k, false, false)[0]); denv[v] = dv.back (); }
+                }
+            Ctx2<A, B> c;
+            c.srcIn = &sv; c.dstIn = &dv;
+            body (c);
+            ++st.evals;
+            bool inexact = false, distinct = false;
+            for (auto& x : sv) { B b = static_cast<B> (x); if (!(static_cast<A> (b) == x) && x == x) inexact = true; if (!sameBits (x, sv[0])) distinct = true; }
+            st.nontrivial += distinct;
+            c04stats ()[key + ".evaluations"] += 1;
+            c04stats ()[key + ".with_an_inexact_slot"] += inexact;
+            const Leaf& l = f.paths[0].leaf;
+            bool ok = l.vals.size () == c.outs.size ();
+            std::ostringstream s;
+            s.precision (17);
+            for (size_t i = 0; ok && i < l.vals.size (); ++i)
+            {
+                B want;
+                if (!castTree<A, B> (l.vals[i], senv, denv, want)) { s << "slot " << i << " of the extracted tree is not a plain slot cast"; ok = false; break; }
+                if (!sameBits (want, c.outs[i])) { s << "component " << i << ": real=" << (double) c.outs[i] << " static_cast of the slot the tree names=" << (double) want; ok = false; }
+            }
+            if (!ok)
+            {
+                if (l.vals.size () != c.outs.size ()) s << "result arity differs";
+                s << " :: in=";
+                for (auto& x : sv) s << (double) x << " ";
+                detail = s.str ();
+                return false;
+            }
+        }
+        return true;
+    };
+}
+template <class F> inline RunFn makeRunCast (F body)
+{
+    // replay at double -> float: the numbers are consumed in parameter order (destination-typed inputs are converted to float)
+    return [body] (const std::vector<double>& in, std::vector<double>& vals, std::vector<long>&, std::string&) {
+        Ctx2<double, float> c;
+        c.allIn = &in;
+        body (c);
+        vals.assign (c.outs.begin (), c.outs.end ());
+    };
+}
+#define EXTRACT_CAST(module, ident, leanname, ...)                                                     \
+    struct X_##ident { template <class A, class B> static void run (symns::Ctx2<A, B>& c) __VA_ARGS__ }; \
+    static int reg_##ident = (symns::entries ().push_back (symns::Entry{module, leanname, symns::Opts (),  \
+        [] (symns::Ctx<symns::Sym>& c) { symns::Ctx2<symns::SymS, symns::Sym> c2; c2.sc = &c; X_##ident::run<symns::SymS, symns::Sym> (c2); }, \
+        {{"double>float", symns::makeTVCast<double, float> (&X_##ident::run<double, float>, "double>float")},       \
+         {"float>half", symns::makeTVCast<float, half> (&X_##ident::run<float, half>, "float>half")},               \
+         {"double>int", symns::makeTVCast<double, int> (&X_##ident::run<double, int>, "double>int")},               \
+         {"int>uchar", symns::makeTVCast<int, unsigned char> (&X_##ident::run<int, unsigned char>, "int>uchar")}}, \
+        symns::makeRunCast (&X_##ident::run<double, float>)}), 0);
 }
 
 #define IN(Ty, n) auto n = c.template in<Ty<T>> (#n)
-#define NZ symns::Opts ().nz ()
 
 // + - unary- with an operand of the same type
 #define G_ADDSUB(M, Ty, id, L)                                                                      \
@@ -30,25 +406,25 @@ template <class T, int N> struct FSub2 { T d[N][N]; const T* operator[] (int i) 
 #define G_MULDIV(M, Ty, id, L)                                                                      \
     EXTRACT_ALLT (M, id##_mul, L ".mul", { IN (Ty, a); IN (Ty, b); c.out (a * b); })                 \
     EXTRACT_ALLT (M, id##_mulAssign, L ".mulAssign", { IN (Ty, a); IN (Ty, b); a *= b; c.out (a); }) \
-    EXTRACT_ALLT_OPT (M, id##_div, L ".div", NZ, { IN (Ty, a); IN (Ty, b); c.out (a / b); })         \
-    EXTRACT_ALLT_OPT (M, id##_divAssign, L ".divAssign", NZ, { IN (Ty, a); IN (Ty, b); a /= b; c.out (a); })
+    EXTRACT_DIV (M, id##_div, L ".div", { IN (Ty, a); IN (Ty, b); c.out (a / b); })         \
+    EXTRACT_DIV (M, id##_divAssign, L ".divAssign", { IN (Ty, a); IN (Ty, b); a /= b; c.out (a); })
 // scalar on either side
 #define G_SCALAR(M, Ty, id, L)                                                                      \
     EXTRACT_ALLT (M, id##_mulS, L ".mulS", { IN (Ty, a); T s = c.inS ("s"); c.out (a * s); })        \
     EXTRACT_ALLT (M, id##_mulSAssign, L ".mulSAssign", { IN (Ty, a); T s = c.inS ("s"); a *= s; c.out (a); }) \
     EXTRACT_ALLT (M, id##_smul, L ".smul", { T s = c.inS ("s"); IN (Ty, a); c.out (s * a); })        \
-    EXTRACT_ALLT_OPT (M, id##_divS, L ".divS", NZ, { IN (Ty, a); T s = c.inS ("s"); c.out (a / s); }) \
-    EXTRACT_ALLT_OPT (M, id##_divSAssign, L ".divSAssign", NZ, { IN (Ty, a); T s = c.inS ("s"); a /= s; c.out (a); })
+    EXTRACT_DIV (M, id##_divS, L ".divS", { IN (Ty, a); T s = c.inS ("s"); c.out (a / s); }) \
+    EXTRACT_DIV (M, id##_divSAssign, L ".divSAssign", { IN (Ty, a); T s = c.inS ("s"); a /= s; c.out (a); })
 // matrices: scalar + and - (compound only)
 #define G_ADDS(M, Ty, id, L)                                                                        \
     EXTRACT_ALLT (M, id##_addSAssign, L ".addSAssign", { IN (Ty, a); T s = c.inS ("s"); a += s; c.out (a); }) \
     EXTRACT_ALLT (M, id##_subSAssign, L ".subSAssign", { IN (Ty, a); T s = c.inS ("s"); a -= s; c.out (a); })
 #define G_EQ(M, Ty, id, L)                                                                          \
-    EXTRACT_ALLT (M, id##_eq, L ".eq", { IN (Ty, a); IN (Ty, b); c.outB (a == b); })                 \
-    EXTRACT_ALLT (M, id##_ne, L ".ne", { IN (Ty, a); IN (Ty, b); c.outB (a != b); })
+    EXTRACT_TWIN (M, id##_eq, L ".eq", { IN (Ty, a); IN (Ty, b); c.outB (a == b); })                 \
+    EXTRACT_TWIN (M, id##_ne, L ".ne", { IN (Ty, a); IN (Ty, b); c.outB (a != b); })
 #define G_EQERR(M, Ty, id, L)                                                                       \
-    EXTRACT (M, id##_eqAbs, L ".equalWithAbsError", { IN (Ty, a); IN (Ty, b); T e = c.inS ("e"); c.outB (a.equalWithAbsError (b, e)); }) \
-    EXTRACT (M, id##_eqRel, L ".equalWithRelError", { IN (Ty, a); IN (Ty, b); T e = c.inS ("e"); c.outB (a.equalWithRelError (b, e)); })
+    EXTRACT_EQERR (M, id##_eqAbs, L ".equalWithAbsError", { IN (Ty, a); IN (Ty, b); T e = c.inS ("e"); c.outB (a.equalWithAbsError (b, e)); }) \
+    EXTRACT_EQERR (M, id##_eqRel, L ".equalWithRelError", { IN (Ty, a); IN (Ty, b); T e = c.inS ("e"); c.outB (a.equalWithRelError (b, e)); })
 // operator[] read and write of every slot, raw pointer access
 #define G_INDEX(M, Ty, id, L, N)                                                                    \
     EXTRACT_ALLT (M, id##_indexAll, L ".indexAll", { IN (Ty, a); const Ty<T>& ca = a; Ty<T> r; T* p = reinterpret_cast<T*> (&r); for (int i = 0; i < N; ++i) p[i] = ca[i]; c.out (r); }) \
@@ -116,8 +492,8 @@ EXTRACT_ALLT ("C04Quat", q_neg, "Quat.neg", { IN (Quat, a); c.out (-a); })
 EXTRACT_ALLT ("C04Quat", q_mulS, "Quat.mulS", { IN (Quat, a); T s = c.inS ("s"); c.out (a * s); })
 EXTRACT_ALLT ("C04Quat", q_mulSAssign, "Quat.mulSAssign", { IN (Quat, a); T s = c.inS ("s"); a *= s; c.out (a); })
 EXTRACT_ALLT ("C04Quat", q_smul, "Quat.smul", { T s = c.inS ("s"); IN (Quat, a); c.out (s * a); })
-EXTRACT_ALLT_OPT ("C04Quat", q_divS, "Quat.divS", NZ, { IN (Quat, a); T s = c.inS ("s"); c.out (a / s); })
-EXTRACT_ALLT_OPT ("C04Quat", q_divSAssign, "Quat.divSAssign", NZ, { IN (Quat, a); T s = c.inS ("s"); a /= s; c.out (a); })
+EXTRACT_DIV ("C04Quat", q_divS, "Quat.divS", { IN (Quat, a); T s = c.inS ("s"); c.out (a / s); })
+EXTRACT_DIV ("C04Quat", q_divSAssign, "Quat.divSAssign", { IN (Quat, a); T s = c.inS ("s"); a /= s; c.out (a); })
 G_EQ ("C04Quat", Quat, q, "Quat")
 EXTRACT_ALLT ("C04Quat", q_indexAll, "Quat.indexAll", { IN (Quat, a); const Quat<T>& ca = a; c.out (Quat<T> (ca[0], ca[1], ca[2], ca[3])); })
 EXTRACT_ALLT ("C04Quat", q_setIndexAll, "Quat.setIndexAll", { IN (Quat, a); IN (Quat, b); a[0] = b.r; a[1] = b.v.x; a[2] = b.v.y; a[3] = b.v.z; c.out (a); })
@@ -130,8 +506,8 @@ EXTRACT_ALLT ("C04Quat", q_ctorSV, "Quat.ctorSV", { IN (Quat, a); c.out (Quat<T>
     EXTRACT_ALLT ("C04Mat", id##_mulS, L ".mulS", { IN (Ty, a); T s = c.inS ("s"); c.out (a * s); })        \
     EXTRACT_ALLT ("C04Mat", id##_mulSAssign, L ".mulSAssign", { IN (Ty, a); T s = c.inS ("s"); a *= s; c.out (a); }) \
     EXTRACT_ALLT ("C04Mat", id##_smul, L ".smul", { T s = c.inS ("s"); IN (Ty, a); c.out (s * a); })        \
-    EXTRACT_ALLT_OPT ("C04Mat", id##_divS, L ".divS", NZ, { IN (Ty, a); T s = c.inS ("s"); c.out (a / s); }) \
-    EXTRACT_ALLT_OPT ("C04Mat", id##_divSAssign, L ".divSAssign", NZ, { IN (Ty, a); T s = c.inS ("s"); a /= s; c.out (a); }) \
+    EXTRACT_DIV ("C04Mat", id##_divS, L ".divS", { IN (Ty, a); T s = c.inS ("s"); c.out (a / s); }) \
+    EXTRACT_DIV ("C04Mat", id##_divSAssign, L ".divSAssign", { IN (Ty, a); T s = c.inS ("s"); a /= s; c.out (a); }) \
     G_EQ ("C04Mat", Ty, id, L) G_EQERR ("C04Mat", Ty, id, L) G_INDEX2 ("C04Mat", Ty, id, L, N)              \
     EXTRACT_ALLT ("C04Mat", id##_convert, L ".convertCtor", { typedef typename symns::OtherT<T>::type S; IN (Ty, a); Ty<S> s (a); Ty<T> b (s); c.out (b); }) \
     EXTRACT_ALLT ("C04Mat", id##_setValueM, L ".setValueM", { typedef typename symns::OtherT<T>::type S; IN (Ty, a); IN (Ty, b); Ty<S> s (b); a.setValue (s); c.out (a); }) \
@@ -148,8 +524,6 @@ EXTRACT_ALLT ("C04Mat", m33_ctor9, "M33.ctorElems", { IN (Matrix33, a); c.out (M
 EXTRACT_ALLT ("C04Mat", m44_ctor16, "M44.ctorElems", { IN (Matrix44, a); c.out (Matrix44<T> (a.x[0][0], a.x[0][1], a.x[0][2], a.x[0][3], a.x[1][0], a.x[1][1], a.x[1][2], a.x[1][3], a.x[2][0], a.x[2][1], a.x[2][2], a.x[2][3], a.x[3][0], a.x[3][1], a.x[3][2], a.x[3][3])); })
 
 // ---- stream output: the printed text with one opaque token per element, in three stream states
-#include <sstream>
-#include <iomanip>
 #define SHOW3(M, Ty, id, L)                                                                          \
     EXTRACT_ALLT (M, id##_show, L ".show", { IN (Ty, a); std::ostringstream os; os << a; c.outStr (os.str ()); })            \
     EXTRACT_ALLT (M, id##_showFixed, L ".showFixed", { IN (Ty, a); std::ostringstream os; os << std::fixed << std::setprecision (3) << a; c.outStr (os.str ()); }) \
@@ -165,12 +539,12 @@ SHOW3 ("C04Show", Matrix22, m22, "M22") SHOW3 ("C04Show", Matrix33, m33, "M33") 
     EXTRACT_ALLT (M, id##_subSelf, L ".subAssignSelf", { IN (Ty, a); a -= a; c.out (a); })
 #define G_SELFMD(M, Ty, id, L)                                                                       \
     EXTRACT_ALLT (M, id##_mulSelf, L ".mulAssignSelf", { IN (Ty, a); a *= a; c.out (a); })            \
-    EXTRACT_ALLT_OPT (M, id##_divSelf, L ".divAssignSelf", NZ, { IN (Ty, a); a /= a; c.out (a); })
+    EXTRACT_DIV (M, id##_divSelf, L ".divAssignSelf", { IN (Ty, a); a /= a; c.out (a); })
 #define G_ALIAS(M, Ty, id, L, N)                                                                     \
     EXTRACT_ALLT (M, id##_mulAlias0, L ".mulSAssignAliasFirst", { IN (Ty, a); T* p = reinterpret_cast<T*> (&a); a *= p[0]; c.out (a); })       \
     EXTRACT_ALLT (M, id##_mulAliasL, L ".mulSAssignAliasLast", { IN (Ty, a); T* p = reinterpret_cast<T*> (&a); a *= p[N - 1]; c.out (a); })    \
-    EXTRACT_ALLT_OPT (M, id##_divAlias0, L ".divSAssignAliasFirst", NZ, { IN (Ty, a); T* p = reinterpret_cast<T*> (&a); a /= p[0]; c.out (a); })    \
-    EXTRACT_ALLT_OPT (M, id##_divAliasL, L ".divSAssignAliasLast", NZ, { IN (Ty, a); T* p = reinterpret_cast<T*> (&a); a /= p[N - 1]; c.out (a); })
+    EXTRACT_DIV (M, id##_divAlias0, L ".divSAssignAliasFirst", { IN (Ty, a); T* p = reinterpret_cast<T*> (&a); a /= p[0]; c.out (a); })    \
+    EXTRACT_DIV (M, id##_divAliasL, L ".divSAssignAliasLast", { IN (Ty, a); T* p = reinterpret_cast<T*> (&a); a /= p[N - 1]; c.out (a); })
 #define ALIAS_ALL(M, Ty, id, L, N) G_SELF (M, Ty, id, L) G_ALIAS (M, Ty, id, L, N)
 ALIAS_ALL ("C04Alias", Vec2, v2, "V2", 2) G_SELFMD ("C04Alias", Vec2, v2, "V2")
 ALIAS_ALL ("C04Alias", Vec3, v3, "V3", 3) G_SELFMD ("C04Alias", Vec3, v3, "V3")
@@ -188,3 +562,52 @@ EXTRACT_ALLT ("C04Alias", m44_addSAlias, "M44.addSAssignAliasFirst", { IN (Matri
 EXTRACT_ALLT ("C04Alias", m22_subSAlias, "M22.subSAssignAliasFirst", { IN (Matrix22, a); a -= a.x[0][0]; c.out (a); })
 EXTRACT_ALLT ("C04Alias", m33_subSAlias, "M33.subSAssignAliasFirst", { IN (Matrix33, a); a -= a.x[0][0]; c.out (a); })
 EXTRACT_ALLT ("C04Alias", m44_subSAlias, "M44.subSAssignAliasFirst", { IN (Matrix44, a); a -= a.x[0][0]; c.out (a); })
+
+// ---- conversions between element types with the cast visible (EXTRACT_CAST: A = source, B = destination element type;
+// TV at double->float, float->half, double->int, int->unsigned char against the scalar static_cast, slot by slot)
+#define SRC(Ty, n) auto n = c.template src<Ty<A>> (#n)
+#define DST(Ty, n) auto n = c.template dst<Ty<B>> (#n)
+#define G_NARROW(M, Ty, id, L, SV, GV)                                                                  \
+    EXTRACT_CAST (M, id##_nCtor, L ".narrowCtor", { SRC (Ty, a); c.out (Ty<B> (a)); })                   \
+    EXTRACT_CAST (M, id##_nSetV, L "." SV, { DST (Ty, a); SRC (Ty, b); a.setValue (b); c.out (a); })     \
+    EXTRACT_CAST (M, id##_nGetV, L "." GV, { SRC (Ty, a); DST (Ty, b); a.getValue (b); c.out (b); })
+G_NARROW ("C04Vec", Vec2, v2, "V2", "narrowSetValueV", "narrowGetValueV")
+G_NARROW ("C04Vec", Vec3, v3, "V3", "narrowSetValueV", "narrowGetValueV")
+G_NARROW ("C04Vec", Vec4, v4, "V4", "narrowSetValueV", "narrowGetValueV")
+G_NARROW ("C04Color", Color4, c4, "C4", "narrowSetValueV", "narrowGetValueV")
+G_NARROW ("C04Shear", Shear6, sh, "Shear6", "narrowSetValueV", "narrowGetValueV")
+G_NARROW ("C04Mat", Matrix22, m22, "M22", "narrowSetValueM", "narrowGetValueM")
+G_NARROW ("C04Mat", Matrix33, m33, "M33", "narrowSetValueM", "narrowGetValueM")
+G_NARROW ("C04Mat", Matrix44, m44, "M44", "narrowSetValueM", "narrowGetValueM")
+EXTRACT_CAST ("C04Mat", m22_nSetThe, "M22.narrowSetTheMatrix", { DST (Matrix22, a); SRC (Matrix22, b); a.setTheMatrix (b); c.out (a); })
+EXTRACT_CAST ("C04Mat", m33_nSetThe, "M33.narrowSetTheMatrix", { DST (Matrix33, a); SRC (Matrix33, b); a.setTheMatrix (b); c.out (a); })
+EXTRACT_CAST ("C04Mat", m44_nSetThe, "M44.narrowSetTheMatrix", { DST (Matrix44, a); SRC (Matrix44, b); a.setTheMatrix (b); c.out (a); })
+EXTRACT_CAST ("C04Quat", q_nCtor, "Quat.narrowCtor", { SRC (Quat, a); c.out (Quat<B> (a)); })
+EXTRACT_CAST ("C04Vec", v2_nSetS, "V2.narrowSetValueS", { DST (Vec2, a); SRC (Vec2, b); a.setValue (b.x, b.y); c.out (a); })
+EXTRACT_CAST ("C04Vec", v3_nSetS, "V3.narrowSetValueS", { DST (Vec3, a); SRC (Vec3, b); a.setValue (b.x, b.y, b.z); c.out (a); })
+EXTRACT_CAST ("C04Vec", v4_nSetS, "V4.narrowSetValueS", { DST (Vec4, a); SRC (Vec4, b); a.setValue (b.x, b.y, b.z, b.w); c.out (a); })
+EXTRACT_CAST ("C04Vec", v2_nGetS, "V2.narrowGetValueS", { SRC (Vec2, a); DST (Vec2, b); a.getValue (b.x, b.y); c.out (b); })
+EXTRACT_CAST ("C04Vec", v3_nGetS, "V3.narrowGetValueS", { SRC (Vec3, a); DST (Vec3, b); a.getValue (b.x, b.y, b.z); c.out (b); })
+EXTRACT_CAST ("C04Vec", v4_nGetS, "V4.narrowGetValueS", { SRC (Vec4, a); DST (Vec4, b); a.getValue (b.x, b.y, b.z, b.w); c.out (b); })
+EXTRACT_CAST ("C04Color", c4_nSetS, "C4.narrowSetValueS", { DST (Color4, a); SRC (Color4, b); a.setValue (b.r, b.g, b.b, b.a); c.out (a); })
+EXTRACT_CAST ("C04Color", c4_nGetS, "C4.narrowGetValueS", { SRC (Color4, a); DST (Color4, b); a.getValue (b.r, b.g, b.b, b.a); c.out (b); })
+EXTRACT_CAST ("C04Shear", sh_nSetS, "Shear6.narrowSetValueS", { DST (Shear6, a); SRC (Shear6, b); a.setValue (b.xy, b.xz, b.yz, b.yx, b.zx, b.zy); c.out (a); })
+EXTRACT_CAST ("C04Shear", sh_nGetS, "Shear6.narrowGetValueS", { SRC (Shear6, a); DST (Shear6, b); a.getValue (b.xy, b.xz, b.yz, b.yx, b.zx, b.zy); c.out (b); })
+EXTRACT_CAST ("C04Vec", v4_nFromV3, "V4.narrowFromV3", { SRC (Vec3, a); c.out (Vec4<B> (a)); })
+EXTRACT_CAST ("C04Color", c3_nFromV3, "C3.narrowFromV3", { SRC (Vec3, a); c.out (Color3<B> (a)); })
+EXTRACT_CAST ("C04Shear", sh_nFromV3, "Shear6.narrowFromV3", { SRC (Vec3, a); DST (Shear6, t); Shear6<B> s (a); t = a; c.out (s); c.out (t); })
+
+// ---- raw C arrays through the partial specialisations has_subscript<Base[N], Base, N> / has_double_subscript<Base[R][C], ...>
+EXTRACT_ALLT ("C04Vec", v2_interopArr, "V2.interopArr", { IN (Vec2, a); T f[2] = {a.x, a.y}; Vec2<T> b (f); Vec2<T> d; d = f; c.out (b); c.out (d); })
+EXTRACT_ALLT ("C04Vec", v3_interopArr, "V3.interopArr", { IN (Vec3, a); T f[3] = {a.x, a.y, a.z}; Vec3<T> b (f); Vec3<T> d; d = f; c.out (b); c.out (d); })
+EXTRACT_ALLT ("C04Vec", v4_interopArr, "V4.interopArr", { IN (Vec4, a); T f[4] = {a.x, a.y, a.z, a.w}; Vec4<T> b (f); Vec4<T> d; d = f; c.out (b); c.out (d); })
+#define G_ARR2(Ty, id, L, N) EXTRACT_ALLT ("C04Mat", id##_interopArr2, L ".interopArr2", { IN (Ty, a); T f[N][N]; for (int i = 0; i < N; ++i) for (int j = 0; j < N; ++j) f[i][j] = a.x[i][j]; Ty<T> d; d = f; c.out (d); })
+G_ARR2 (Matrix22, m22, "M22", 2) G_ARR2 (Matrix33, m33, "M33", 3) G_ARR2 (Matrix44, m44, "M44", 4)
+
+// ---- operator<< leaves the caller's stream state as it found it (the matrix operators switch the stream to scientific / showpoint while printing)
+#define SHOWKEEPS(M, Ty, id, L)                                                                        \
+    EXTRACT_ALLT (M, id##_showKeeps, L ".showKeepsState", { IN (Ty, a); std::ostringstream os; os << std::setprecision (5); auto fl = os.flags (); auto pr = os.precision (); auto fi = os.fill (); \
+        os << a; c.outB (os.flags () == fl && os.precision () == pr && os.fill () == fi && os.width () == 0); })
+SHOWKEEPS ("C04Show", Vec2, v2, "V2") SHOWKEEPS ("C04Show", Vec3, v3, "V3") SHOWKEEPS ("C04Show", Vec4, v4, "V4") SHOWKEEPS ("C04Show", Color3, c3, "C3")
+SHOWKEEPS ("C04Show", Color4, c4, "C4") SHOWKEEPS ("C04Show", Shear6, sh, "Shear6") SHOWKEEPS ("C04Show", Quat, q, "Quat")
+SHOWKEEPS ("C04Show", Matrix22, m22, "M22") SHOWKEEPS ("C04Show", Matrix33, m33, "M33") SHOWKEEPS ("C04Show", Matrix44, m44, "M44")
